@@ -1,3 +1,4 @@
+@delay.setter
 def spec(self, value):
     value = argtest.gte('delay', value, 0, float)
     if value != self.__delay:
